@@ -249,8 +249,72 @@ def ulp_cases(tier):
     return cs
 
 
+# ---- floatDistance ---------------------------------------------------------------------------------------------------------------------------------
+
+def distance_cases(tier):
+    """floatDistance / float_distance(x, y) is the number of representable values between x and y: |key(x) - key(y)| on the monotone integer scale
+    key = +magnitude for positive, -magnitude for negative patterns.  Decided per sign combination (magnitudes symbolic) as polynomials mod 2^w."""
+    from laneflow import ceval as CE
+    cs = []
+    cfg = CFGS[0]
+    for T, W, IT in (('float', 32, 'int'), ('double', 64, 'int64')):
+        sc, it_ = G.scalar(T), G.scalar(IT)
+        for fn in ('floatDistance', 'float_distance'):
+            k = K('dist_%s_%s' % (fn, sc.tag), [Par('o', it_, False), Par('x', sc), Par('y', sc)], '*o = %s(*x, *y);' % fn, cfg)
+            name = '%s<%s>' % (fn, T)
+
+            def judge(ctx, k=k, name=name, W=W):
+                e = ctx.compile_error(k)
+                if e:
+                    return [R.ob(name, 'existence', R.REFUTED, 'cannot be instantiated: ' + e, kernel=k.source())]
+                it = ctx.fn(k)
+                t = I.out_lane(it, 'o', 0, W // 8)
+                x, y = tm.inp('x', 0, W), tm.inp('y', 0, W)
+                mx, my = tm.slice_(x, 0, W - 1), tm.slice_(y, 0, W - 1)
+                pc = P.PCtx()
+                res = []
+                for sx in (0, 1):
+                    for sy in (0, 1):
+                        oid = '%s[sign x = %d, sign y = %d]' % (name, sx, sy)
+                        r = tm.substitute(t, {x: tm.concat([mx, tm.const(1, sx)]), y: tm.concat([my, tm.const(1, sy)])})
+                        # specification on the monotone scale
+                        kx = tm.zext(mx, W) if not sx else tm.arith('sub', tm.zeros(W), tm.zext(mx, W))
+                        ky = tm.zext(my, W) if not sy else tm.arith('sub', tm.zeros(W), tm.zext(my, W))
+                        spec_in = tm.arith('sub', kx, ky)
+                        ok = False
+                        if r.op == 'iabs':
+                            try:
+                                pg, ps = pc.ipoly(r.args[0], W), pc.ipoly(spec_in, W)
+                                ok = pg == ps or pg == -ps
+                            except Exception:
+                                ok = False
+                        if ok:
+                            res.append(R.ob(oid, 'float_distance', R.PROVED, '|key(x) - key(y)| with key = +-magnitude', kernel=k.source()))
+                            continue
+                        # witness: smallest magnitudes around zero and a generic pair
+                        wit = None
+                        for a_, b_ in ((1, 1), (0, 1), (1, 0), (5, 3), (0x3f800000 if W == 32 else 0x3ff0000000000000, 2)):
+                            env = {x: a_ | (sx << (W - 1)), y: b_ | (sy << (W - 1))}
+                            try:
+                                got = CE.evaluate(t, env)
+                            except CE.NoValue:
+                                continue
+                            want = abs((-a_ if sx else a_) - (-b_ if sy else b_))
+                            if got != want:
+                                wit = (env[x], env[y], got, want)
+                                break
+                        if wit:
+                            res.append(R.ob(oid, 'float_distance', R.REFUTED, 'for the bit patterns x = %#x, y = %#x the result is %#x; there are %d representable values between them (the code subtracts the raw sign-magnitude patterns: %s)' % (wit + (tm.show(r, 4),)),
+                                            where=R.where_of(it, t), kernel=k.source()))
+                        else:
+                            res.append(R.ob(oid, 'float_distance', R.UNDECIDED, 'got %s' % tm.show(r, 4), kernel=k.source()))
+                return res
+            cs.append(R.Case(name, [k], judge))
+    return cs
+
+
 def cases(tier):
-    return step_cases(tier) + eps_cases(tier) + ulp_cases(tier) + canaries()
+    return step_cases(tier) + eps_cases(tier) + ulp_cases(tier) + distance_cases(tier) + canaries()
 
 
 def canaries():
